@@ -368,3 +368,22 @@ def run(repo: Repo, rep: Report, tier: str) -> None:
     rep.check(ok14, "C15-R14", "SemanticAnalyzer.memory_types distinguishes a callee's memory from the caller's memory of the same name",
               "restored on scope exit / keyed by scope" if ok14 else
               f"`{norm(n14)[:60]}` is keyed by the bare name and never restored: after `func f() {{ Memory c: \"signal-B\"; ... }}` the caller's `Memory c: \"signal-A\"` is created on signal-B", m14.loc(n14))
+
+    # ---------------- R15 --------------------------------------------------------------
+    rep.rule("C15-R15", "a function hands back the entity it places however the return is spelled: in the inliner's return branch the returned-entity channel is filled for "
+             "`return <name>` and for `return place(...)` alike (the second form used to return a value and forget the entity, so writes to the result were dropped)")
+    ret_br = [n for n in walk_local(inl.node) if isinstance(n, ast.If) and "isinstance(ELEM(" in ci.text(n.test) and "ReturnStmt" in ci.text(n.test)]
+    if not ret_br:
+        raise AnalysisError("C15-R15: the return branch of the inliner was not found")
+    chan = [x for x in ast.walk(ret_br[0]) if isinstance(x, ast.Assign) and any(isinstance(t, ast.Attribute) and t.attr == "returned_entity_id" for t in x.targets)]
+    forms = {"name": False, "place": False}
+    from .util import cguards as _cg15
+    for x in chan:
+        gtxt = " ".join(g for g, pol in _cg15(inl, x) if pol)
+        if "IdentifierExpr" in gtxt:
+            forms["name"] = True
+        if "CallExpr" in gtxt and "'place'" in gtxt:
+            forms["place"] = True
+    for form, okf in forms.items():
+        rep.check(okf, "C15-R15", f"inliner records the returned entity for `return {'<name>' if form == 'name' else 'place(...)'}`", "channel filled under that form" if okf else
+                  "the channel is never filled for this form: `func make(int x) { return place(\"small-lamp\", x, 0); } Entity l = make(3); l.enable = ...;` loses the write", inl.loc(ret_br[0]))
